@@ -555,6 +555,14 @@ func init() {
 		for _, j := range js {
 			j.Prefer = "bits"
 		}
+		satSteps := 1
+		if tier == "thorough" {
+			satSteps = 2
+		}
+		for _, c := range []seqCfg{{"bs_max10", 0, 0, 1, 10}, {"bse_accessing_max10", 3, 0, 1, 10}} {
+			js = append(js, mk("c17.cache.saturated."+c.name, rootPkg, "ZZ_C17_Saturated", with(cfgParams(c.exp, c.ref, c.bound, c.max, 0, 10), "steps", satSteps),
+				func(b *Bounds) { b.Unwind = 70; b.Procs = 1 }))
+		}
 		return js
 	}
 }
